@@ -529,7 +529,8 @@ def _work_benign(args) -> dict:
     os.makedirs(root)
     try:
         _copy_tree(repo, root)
-        r = subprocess.run(["git", "apply", "--whitespace=nowarn", patch], cwd=root, capture_output=True, text=True)
+        # the scratch copy holds the package without its test-suite; hunks for test files are not part of what is analysed
+        r = subprocess.run(["git", "apply", "--whitespace=nowarn", "--exclude=xandikos/tests/*", patch], cwd=root, capture_output=True, text=True)
         if r.returncode != 0:
             return {"id": "refactor:" + bid, "prop": prop, "status": "skipped", "benign": True, "desc": "refactoring (patch does not apply to this tree)"}
         run = core.run_property(prop, root, "quick")
